@@ -83,3 +83,40 @@ func VerifC31Unterminated() {
 		rt.Assert("unterminated/plain-constant-rejected", panicked)
 	}
 }
+
+// C31 objects: an object with one unnamed member (a small integer) and one named member whose
+// name is "true", "false", a digit-leading or ordinary identifier, or 1 arbitrary byte, and whose
+// value is a string of 0..1 arbitrary bytes: the displayed text compiles back to an Equal object
+// (also as a record).
+//
+//symgo:harness prop=C31 tier=quick shards=8 timeout=400 bounds=objects/records_with_1_list_member_and_1_named_member;name_in_{true,false,a,1a,a_b,1_arbitrary_byte};value_string_of_0..1_arbitrary_bytes
+func VerifC31Object() {
+	names := []string{"true", "false", "a", "1a", "a_b", ""}
+	name := names[rt.Pick("name", len(names))]
+	if name == "" {
+		name = rt.Str("namebyte", 1)
+	}
+	val := SuStr(rt.Str("val", rt.Pick("vallen", 2)))
+	n := rt.IntRange("n", -5, 5)
+	var ob Value
+	if rt.Pick("record", 2) == 1 {
+		r := &SuRecord{}
+		r.Add(IntVal(n))
+		r.Set(SuStr(name), val)
+		ob = r
+	} else {
+		o := &SuObject{}
+		o.Add(IntVal(n))
+		o.Set(SuStr(name), val)
+		ob = o
+	}
+	text := ob.String()
+	rt.Reach("displayed")
+	rt.Observe("text", text)
+	var back Value
+	panicked := rt.Try(func() { back = Constant(text) })
+	rt.Assert("object/display-compiles", !panicked)
+	if !panicked {
+		rt.Assert("object/evaluates-back-equal", back.Equal(ob) && ob.Equal(back))
+	}
+}
